@@ -240,6 +240,15 @@ func GenConfig(prop string, g *Gen, tier string) Config {
 			c.CheckEvery = 1 << 30
 		}
 	}
+	if c.NoLike {
+		// registered-types unmarshalling round-trips only JSON-native types: strings it is, whatever
+		// the property-specific overrides above chose
+		c.KeyD, c.ValD, c.Layers = "string", "string", nil
+		c.Marshaler = "json"
+		if c.Format != FmtBinary {
+			c.Format = FmtMarshaler
+		}
+	}
 	return c
 }
 
